@@ -65,11 +65,12 @@ class Instance:
     functional: variants that alter function (core variants of the catalogue are functional)."""
 
     def __init__(self, catalogue, called, reads, considered=None, no_cov=(), copies_at=None, functional=(), miss=1.5, add=1.0, phases=None,
-                 phase_w=0.4):
+                 phase_w=0.4, phase_on=True):
         self.catalogue, self.called, self.reads = catalogue, dict(called), dict(reads)
         self.no_cov, self.copies_at = set(no_cov), dict(copies_at or {})
         self.miss, self.add, self.phase_w = miss, add, phase_w
         self.phases = phases
+        self.phase_on = phase_on      # the profile's `phase` switch: read groups are ignored when it is off
         own = {m for core, minors in catalogue.values() for m in list(core) + [x for ms in minors.values() for x in ms]}
         self.mutations = sorted(own | set(considered or ()))
         self.functional = set(functional) | {m for core, _ in catalogue.values() for m in core}
@@ -127,7 +128,7 @@ def fold_solve_minor(repo, inst: Instance, mode, max_solutions=1, wrapper=None):
 
     class Cov:
         _fold_ok = True
-        profile = Obj(minor_miss=inst.miss, minor_add=inst.add, minor_phase=inst.phase_w, phase=bool(inst.phases), minor_phase_vars=3000, cn_max=20)
+        profile = Obj(minor_miss=inst.miss, minor_add=inst.add, minor_phase=inst.phase_w, phase=bool(inst.phases) and inst.phase_on, minor_phase_vars=3000, cn_max=20)
         sam = Obj(phases=dict(inst.phases)) if inst.phases else None
 
         def __getitem__(self, m):
@@ -227,7 +228,7 @@ def reference(inst: Instance):
         added = sum(len(c[3]) for c in copies)
         novel = {m for c in copies for m in c[3] if m in inst.functional and m not in inst.catalogue[c[0]][0]}
         score = err + inst.miss * dropped + inst.add * added + inst.add / 2 * len(novel)
-        if inst.phases:                                                                      # rule 7: each read group is explained by one called copy
+        if inst.phases and inst.phase_on:                                                    # rule 7: each read group is explained by one called copy
             mut_pos = {m.pos for m in muts}
             modes = collections.Counter()
             for rv in inst.phases.values():
